@@ -131,6 +131,8 @@ def run(ctx, rep):
                 atom, pol = cond_holds(d, val)
                 if atom[0] == "Eq" and len(atom) == 3:
                     atom = ("Eq",) + tuple(sorted(atom[1:], key=repr))
+                if not pol and atom[0] == "Lt" and len(atom) == 3 and ("Le", atom[2], atom[1]) in _atoms:
+                    return True                    # !(a < b) is b <= a (branch conditions are told in one spelling)
                 return pol and atom in _atoms
             def width_consts(t_):
                 # 8 * W::size_for(self.class) with W concrete (u32 / u64): the literal width again (as for the facts above)
